@@ -34,6 +34,10 @@ func leaves(thorough bool) []*Node {
 		NFloat(KFloat32, true, 1.5), NBool(true, false), NStr(true, "1"),
 		// size boundaries: collections long enough to cross the usual growth steps of append (8, 16, 32)
 		bigList(9, 8), bigList(17, 0), bigList(33, 32), bigMap(9),
+		// []interface{} with RUNS of one kind that contain the zero value (a literal that cannot be read in that kind must
+		// be skipped element by element, never compared against a left-over zero)
+		NSlice(TAny, NInt(KInt, false, 7), NInt(KInt, false, 0)), NSlice(TAny, NFloat(KFloat64, false, 1.5), NFloat(KFloat64, false, 0)), NSlice(TAny, NBool(false, true), NBool(false, false)),
+		NSlice(TAny, str("a"), NUint(KUint8, false, 3), NUint(KUint8, false, 0), str("")), NSlice(TAny, NFloat(KFloat32, false, 1.5), NFloat(KFloat64, false, 1.5), NFloat(KFloat32, false, 0)),
 	)
 	if thorough {
 		l = append(l,
@@ -138,6 +142,9 @@ var jsonTexts = []string{
 	`{"a":1}`, `{"a":1.5}`, `{"a":"a"}`, `{"a":true}`, `{"a":null}`, `{"a":[1,null,"a"]}`, `{"a":{"a":1,"b":null}}`,
 	`{"a":[{"a":1},{"a":"a"}]}`, `{"a":[]}`, `{"a":{}}`, `{"a":[[1],[2]]}`, `{"a":{"a":{"a":1}}}`, `[1,2]`, `{"a":1e3,"b":"1"}`,
 	`{"a":["a","b"]}`, `{"a":[1,1.5,-1]}`, `{"a":{"0":1,"1":"a"}}`,
+	// shapes for nested quantifiers that re-bind a name / range over the outer alias
+	`{"a":[{"a":[1,2]},{"a":[3]}]}`, `{"a":[{"a":[2]},{"a":[1,1]}]}`, `{"a":{"k":{"a":[1]},"l":{"a":[2,1]}}}`, `{"a":[{"a":[{"a":1}]},{"a":[]}]}`,
+	`{"a":{"a.a":1,"a/a":2,"a":{"a":3}},"b":1}`, `{"a":[8080,0,"http"],"b":[0.0,1.5]}`,
 }
 
 func docs(thorough bool) []*Node {
@@ -189,7 +196,7 @@ func docs(thorough bool) []*Node {
 
 // ---------- expression universe ----------
 
-var lits = []string{"", "a", "b", "1", "0", "-1", "1.5", "true", "T", "0x1", "1_0", "1e3", "inf", "99999999999999999999", "abc", "a+", "(", "7", "1.0", "+1", "1000", "/a/b"}
+var lits = []string{"", "a", "b", "1", "0", "-1", "1.5", "true", "T", "0x1", "1_0", "1e3", "inf", "99999999999999999999", "abc", "a+", "(", "7", "1.0", "+1", "1000", "/a/b", "nothing", "http"}
 
 var selsQuick = [][]string{{"a"}, {"b"}, {"a", "a"}, {"a", "b"}, {"a", "c"}, {"a", "0"}, {"a", "1"}, {"a", "2"}, {"a", "true"}, {"a", "A"}, {"a", "H"}, {"a", "u"},
 	{"a", "a", "a"}, {"a", "0", "a"}, {"a", "a", "0"}, {"a", "0", "0"}, {"a", "a", "c"}, {"a", ""}, {"a", "x"}, {"a", "01"}}
@@ -252,6 +259,11 @@ func quantExprs(thorough bool) []any {
 			out = append(out, &Quant{All: all, Sel: []string{"a"}, Mode: mode, Idx: "i", Val: "x", Body: inner})
 			inner2 := &Quant{All: !all, Sel: []string{"x", "a"}, Mode: BindValue, Val: "x", Body: &Match{Sel: []string{"x"}, Op: OpEq, Lit: "1"}}
 			out = append(out, &Quant{All: all, Sel: []string{"a"}, Mode: mode, Idx: "i", Val: "x", Body: inner2})
+			// inner quantifier re-binds the outer name and ranges over the outer alias; a third level re-binds it again
+			inner3 := &Quant{All: !all, Sel: []string{"x", "a"}, Mode: BindDefault, Val: "x", Body: &Match{Sel: []string{"x"}, Op: OpEq, Lit: "1"}}
+			out = append(out, &Quant{All: all, Sel: []string{"a"}, Mode: mode, Idx: "i", Val: "x", Body: inner3})
+			inner4 := &Quant{All: all, Sel: []string{"x", "a"}, Mode: BindValue, Val: "y", Body: &Quant{All: !all, Sel: []string{"b"}, Mode: BindDefault, Val: "x", Body: &Match{Sel: []string{"y"}, Op: OpEq, Lit: "1"}}}
+			out = append(out, &Quant{All: all, Sel: []string{"a"}, Mode: mode, Idx: "i", Val: "x", Body: inner4})
 			if thorough {
 				// depth 3, outer alias used as inner collection, inner shadowing outer
 				in3 := &Quant{All: all, Sel: []string{"y"}, Mode: BindBoth, Idx: "j", Val: "z", Body: &Bin{Or: true, L: &Match{Sel: []string{"z"}, Op: OpEq, Lit: "1"}, R: &Match{Sel: []string{"j"}, Op: OpEq, Lit: "0"}}}
@@ -269,6 +281,9 @@ func connectiveExprs() []any {
 		&Match{Sel: []string{"a"}, Op: OpEq, Lit: "1"}, &Match{Sel: []string{"a", "a"}, Op: OpEq, Lit: "1"}, &Match{Sel: []string{"a", "c"}, Op: OpNe, Lit: "1"},
 		&Match{Sel: []string{"a"}, Op: OpEmpty}, &Match{Sel: []string{"zz"}, Op: OpEq, Lit: "1"}, &Match{Sel: []string{"a", "0"}, Op: OpIn, Lit: "a"},
 	}
+	// two DIFFERENT paths whose joined display strings coincide (a["a.a"] vs a.a.a, a["a/a"] vs a.a.a): a memo keyed by the
+	// rendered selector would confuse them inside one expression
+	atoms = append(atoms, &Match{Sel: []string{"a", "a.a"}, Op: OpEq, Lit: "1"}, &Match{Sel: []string{"a", "a/a"}, Op: OpEq, Lit: "2"}, &Match{Sel: []string{"a", "a", "a"}, Op: OpEq, Lit: "3"})
 	for _, a := range atoms {
 		out = append(out, &Not{X: a})
 		for _, b := range atoms {
